@@ -224,3 +224,56 @@ func TestBoundedC11Histories(t *testing.T) {
 	}
 	fmt.Printf("LZVC-BOUNDED name=osap-histories cases=%d bound=%d pseudo-random histories (seed 11) of 25 operations (Write, Parse both flags, Parse(nil), Shrink, Reset) over random geometries with buffers of 8..47 bytes: executable osapInv after every operation, cost optimality of every flags-0 block\n", cases, runs)
 }
+
+// Nested repeats: a word whose shorter and shorter prefixes recur nearer and nearer gives positions with
+// many edges (more than the four slots reserved per position), with offsets in different cost classes.
+func TestBoundedC11Nested(t *testing.T) {
+	cases := 0
+	word := []byte("abcdefghijklmnop")
+	for _, L := range []int{8, 10, 12, 14} {
+		for _, step := range []int{1, 2, 3} {
+			for fill := 0; fill <= 10; fill += 2 {
+				for _, bs := range []int{16, 7, 64} {
+					var data []byte
+					sep := byte('0')
+					for l := L; l >= 3; l -= step {
+						data = append(data, word[:l]...)
+						data = append(data, sep)
+						sep++
+						if l == L-2*step {
+							data = append(data, bytes.Repeat([]byte{'#'}, fill)...)
+						}
+					}
+					data = append(data, "ABCDEFG"[:fill%7]...)
+					data = append(data, word[:L]...)
+					data = append(data, "tail"...)
+					cfg := OSAPConfig{BufferSize: 1024, WindowSize: 1024, BlockSize: bs, MinMatchLen: 3}
+					cfg.SetDefaults()
+					ps, err := cfg.NewParser()
+					if err != nil {
+						t.Fatal(err)
+					}
+					s := ps.(*optSuffixArrayParser)
+					s.Write(data)
+					var blk Block
+					for {
+						w := s.W
+						nn, err := s.Parse(&blk, 0)
+						if err != nil {
+							break
+						}
+						what := fmt.Sprintf("nested L=%d step=%d fill=%d block=%d", L, step, fill, bs)
+						c11Inv(t, s, cfg, what)
+						got := c11BlockCost(t, &blk, s.Data, w, nn, cfg, what)
+						want := c11Optimum(s.Data, w, nn, cfg.WindowSize, cfg.MinMatchLen, cfg.MaxMatchLen)
+						if got != want {
+							t.Fatalf("%s: text %q block %d..%d costs %d, optimum %d: %+v", what, data, w, w+nn, got, want, blk.Sequences)
+						}
+						cases++
+					}
+				}
+			}
+		}
+	}
+	fmt.Printf("LZVC-BOUNDED name=osap-nested cases=%d bound=every block of 216 texts with nested prefix repeats (word lengths 8..14, prefix steps 1..3, fillers 0..10, block sizes 7/16/64): valid and of minimum cost\n", cases)
+}
